@@ -88,6 +88,8 @@ class Ctx(object):
                     ob.meta["dependency_of_listed_functions"] = True
             obs.extend(o)
             info.pop("_why", None)
+            if "skipped_clauses" in info:
+                info["skipped_clauses"] = sorted(info["skipped_clauses"])
             self.fun_info.append(info)
             self.used_models |= ex.used_models
             self.used_contracts |= ex.used_contracts
@@ -231,6 +233,9 @@ def run_property(prop, tier="quick", seed=0, repo_root=None, only=None):
                     status["errors"].append("vacuity: cover %s is unsatisfiable" % o.name)
                 else:
                     status["undecided"].append(o.name)
+        for i in ctx.fun_info:
+            for c_ in sorted(i.get("skipped_clauses", ())):
+                status["degraded"].append("clause not decided on this tree (its subject is not shown in the form the clause speaks of): %s::%s" % (i["function"].split("::")[0], c_))
         unreached = [i for i in ctx.fun_info if i.get("unreached")]
         for i in unreached:
             # a function that left the modelled subset (or that the generator cannot digest) is *unreached*: the
@@ -394,6 +399,9 @@ def run_property(prop, tier="quick", seed=0, repo_root=None, only=None):
         ctx.cleanup()
 
 
+PROOF_ANNOTATION = re.compile(r":(init|preserve):|::call-pre:|:decreases\b")
+
+
 def handle_refuted(ctx, pm, o, known, status, candidate=False):
     """a valid-expected obligation came back sat: known finding / replayed violation / unreplayed violation"""
     prop = ctx.prop
@@ -421,6 +429,14 @@ def handle_refuted(ctx, pm, o, known, status, candidate=False):
         replayed = None
     if candidate and not replayed:
         return False
+    if PROOF_ANNOTATION.search(o.name) and not replayed:
+        # a loop invariant that is not established / preserved, a callee's precondition not met at a call site, a variant that
+        # does not decrease: the *annotation* no longer fits the code.  That is a failed proof, not a counterexample to the
+        # property -- the postconditions of the function are simply not established by this run (undecided); what the statement
+        # asks is then decided by the bounded stand-in alone
+        status["undecided"].append(o.name)
+        status["degraded"].append("proof annotation no longer fits the code: %s (postconditions of this function are not established by this run)" % o.name)
+        return True
     from .solve import tainted
     approx_ = tainted(o)
     if approx_ and not replayed:
